@@ -173,7 +173,10 @@ func snake(s string) string {
 
 func boolExt(f *d.FieldDescriptorProto, get func(*d.FieldDescriptorProto) bool) bool { return get(f) }
 
-func NewModel(file *d.FileDescriptorProto, cfg *Config) *Model {
+func NewModel(file *d.FileDescriptorProto, cfg *Config) *Model { return NewModelP(file, cfg, "") }
+
+// NewModelP: occurrence ids carry a prefix so that two models can be emitted into one file.
+func NewModelP(file *d.FileDescriptorProto, cfg *Config, idPrefix string) *Model {
 	m := &Model{File: file, Cfg: cfg, Msgs: map[string]*d.DescriptorProto{}, MsgIx: map[string]int{}, Enums: map[string]bool{}}
 	for i, mt := range file.MessageType {
 		m.Msgs[mt.GetName()] = mt
@@ -184,7 +187,7 @@ func NewModel(file *d.FileDescriptorProto, cfg *Config) *Model {
 	}
 	for _, mt := range file.MessageType {
 		if inList(cfg.Types, mt.GetName()) {
-			m.Roots = append(m.Roots, m.occ(mt, mt.GetName(), mt.GetName()))
+			m.Roots = append(m.Roots, m.occ(mt, mt.GetName(), idPrefix+mt.GetName()))
 		}
 	}
 	return m
